@@ -30,6 +30,8 @@ def run(tier, seed, res, lean):
     aprobs = [p for o in aouts for p in o[1] if 'hash' in p.get('msg', '')]
     for i in range(4 if tier == 'quick' else 24):
         problems += suite_neutral.run_two_storages(seed * 17 + i)
+    for i in range(12 if tier == 'quick' else 100):
+        problems += suite_neutral.run_ids_order(seed * 29 + i)
     from .. import suite_hash
     ef = pmap(_explicit_shard, [(seed * 619 + i + 3, 8 if tier == 'quick' else 60) for i in range(8)])
     problems += [p for o in ef for p in o[1] if p.get('kind') == 'silent-changes-hash']
